@@ -17,8 +17,10 @@ Threads: any number.  Producer `p` performs one `Offer` of the request with id `
 `Read` any number of times; `complete id e` is `Done.OnDone(e)` for a handed-over request, by any
 goroutine; `cancel p` ends producer `p`'s context; `shutdown` is `Shutdown`.
 
-`sync.Cond` (`hasMoreElements`) is over-approximated: a consumer parked in `Wait` may re-check its
-predicate whenever the predicate holds (`recheck`).  Every real schedule is a schedule of this model.
+`sync.Cond` (`hasMoreElements`) is modelled exactly (Go's `sync.Cond` has no spurious wake-ups): a consumer that
+finds nothing to read parks (`cwait`, arrival order); `Signal` moves the longest-parked consumer to `cwoken`,
+`Broadcast` moves all; a woken consumer re-acquires the lock and re-evaluates the loop of `Read` (`recheck`), and
+parks again if there is still nothing to read.
 -/
 namespace OtelVerif.C02
 
@@ -69,6 +71,7 @@ structure St where
   size : Int := 0                     -- mq.size
   stopped : Bool := false
   cwait : List Nat := []              -- consumers parked in hasMoreElements.Wait(), arrival order
+  cwoken : List Nat := []             -- consumers notified by Signal/Broadcast that have not re-taken the lock yet
   results : List (Nat × Nat) := []    -- blockingDone.ch contents: (id, err) sent, not received yet
   -- history
   accepted : List Nat := []           -- ids in the order `add` pushed them
@@ -99,9 +102,11 @@ def condSignal (s : St) : St :=
 def refuse (s : St) (p : Nat) (r : Res) : St :=
   { s with refused := s.refused ++ [p], ps := upd s.ps p { s.ps p with ph := .done r, sig := false } }
 
-/-- `add` after the loop: `size += elSize; items.push; hasMoreElements.Signal()` -/
+/-- `add` after the loop: `size += elSize; items.push; hasMoreElements.Signal()` (the longest-parked consumer, if
+any, is notified: `cwait.drop 1` / `cwait.take 1`) -/
 def accept (k : Cfg) (s : St) (p : Nat) (el : Int) : St :=
   { s with size := s.size + el, items := s.items ++ [(p, el)], accepted := s.accepted ++ [p],
+           cwait := s.cwait.drop 1, cwoken := s.cwoken ++ s.cwait.take 1,
            ps := upd s.ps p { s.ps p with ph := if k.wfr then .waitRes else .done .ok, el := el, sig := false } }
 
 /-- `cond.Wait` up to the select: append a fresh channel, unlock -/
@@ -157,21 +162,22 @@ def fire (k : Cfg) (s : St) : Label → Option St
   | .resCtx p =>
     if (s.ps p).ph = .waitRes ∧ (s.ps p).canc = true then some (setP s p { s.ps p with ph := .done .ctxErr }) else none
   | .read c =>
-    if c ∈ s.cwait then none else
+    if c ∈ s.cwait ++ s.cwoken then none else
     match pop s with
     | some s' => some s'
     | none => if s.stopped then some s else some { s with cwait := s.cwait ++ [c] }
   | .recheck c =>
-    if c ∈ s.cwait then
+    if c ∈ s.cwoken then
       match pop s with
-      | some s' => some { s' with cwait := s'.cwait.erase c }
-      | none => if s.stopped then some { s with cwait := s.cwait.erase c } else none
+      | some s' => some { s' with cwoken := s'.cwoken.erase c }
+      | none => if s.stopped then some { s with cwoken := s.cwoken.erase c }
+                else some { s with cwoken := s.cwoken.erase c, cwait := s.cwait ++ [c] }
     else none
   | .complete id e =>
     match s.inflight.lookup id with
     | some el => some (finish k s id el e)
     | none => none
-  | .shutdown => some { s with stopped := true }
+  | .shutdown => some { s with stopped := true, cwait := [], cwoken := s.cwoken ++ s.cwait }
 
 /-- run a schedule; `none` if some label is not enabled -/
 def runSched (k : Cfg) : St → List Label → Option St
